@@ -14,8 +14,12 @@
                           map (fun idx => elem (V (ravel (ext_of mask sh) (ext_of mask idx))) (int_of mask idx)) (all_indices sh)
      body_arity body      the oracle returns one value per output name (see the comment at its definition) *)
 From Verif Require Import Base.Prelude Base.Index Base.NdArr Model.MapSpec Model.MapSpecSpec Model.MapRun Model.MapDenote
-  Model.SymBody Proofs.IndexFacts Proofs.PlaceFacts Proofs.SelectFacts Proofs.MapRunFacts Proofs.C01Example Proofs.C01Corr.
-From Verif Require Corr.Run_C01.
+  Model.SymBody Model.AutoGen Model.AutoGenSpec
+  Proofs.IndexFacts Proofs.PlaceFacts Proofs.SelectFacts Proofs.MapRunFacts Proofs.C01Example Proofs.C01Corr
+  Model.AutoGenNames
+  Proofs.AutoGenFacts Proofs.AutoGenComplete Proofs.AutoGenRun Proofs.C01xCorr Proofs.C01xExample Proofs.MapStoreLink
+  Proofs.C01xEnd.
+From Verif Require Corr.Run_C01 Corr.Run_C01x Model.XrLabelSpec Model.Store Model.StoreSpec Proofs.AutoGenFresh.
 
 (* 1. placement: folding `place` (= _set_output through flat indices) over all linear indices fills the result
       array with exactly the target; in particular every position is written and no write lands elsewhere *)
@@ -140,3 +144,269 @@ Example C01_example_request :
                 (match denote_run sym_body ex_p ex_inputs [] with Ok d => Some d | Err _ => None end)
      = Some [(s "y", Ok [2; 3]); (s "z", Ok [3; 2])].
 Proof. exact ex_request_hyps. Qed.
+
+(* ====================================================================================================
+   AUTOGENERATED MapSpecs (Model/AutoGen.v: Pipeline.__init__/add/_validate_mapspec/_autogen_mapspec_axes with
+   find_non_root_axes, replace_none_in_axes, create_missing_mapspecs, as repaired by d490e73 348bc4e 776ea17 1a2c41d).
+   `construct user` maps the USER-LEVEL function list (producers of arrays may carry no MapSpec although their outputs
+   are consumed with axes) to the EFFECTIVE list that Pipeline.map runs.
+   ==================================================================================================== *)
+
+(* 7. whenever construction succeeds: only MapSpecs differ; a MapSpec the user wrote is untouched; a function without
+      MapSpec gets one exactly when one of its outputs is an indexed input of some MapSpec, and that MapSpec is
+      `generated_ok` (no inputs, well formed in the sense of C08, names exactly the outputs, same axes for all outputs);
+      all MapSpecs of the effective list name the axes of every array consistently (XrLabelSpec.consistent is the
+      hypothesis `validate_consistent_axes` of C19) - in particular the generated axes agree with every consumer *)
+Theorem C01_autogen_completion : forall user eff,
+  construct user = Ok eff ->
+  length eff = length user
+  /\ Forall2 (fun f e => e = set_spec f (fspec e)
+                         /\ (forall m, fspec f = Some m -> e = f)
+                         /\ (fspec f = None ->
+                             if existsb (consumed user) (fouts f)
+                             then exists g, fspec e = Some g /\ generated_ok f g = true
+                             else e = f)) user eff
+  /\ XrLabelSpec.consistent (all_aspecs (map fspec eff)) = true.
+Proof. exact construct_readable. Qed.
+Print Assumptions C01_autogen_completion.
+
+Theorem C01_generated_ok_meaning : forall f g,
+  generated_ok f g = true ->
+  ins g = [] /\ wf_decl g = true /\ map aname (outs g) = fouts f
+  /\ forall o o', In o (outs g) -> In o' (outs g) -> axes o = axes o'.
+Proof. exact generated_ok_meaning. Qed.
+Print Assumptions C01_generated_ok_meaning.
+
+(* the same, as the executable statement that the harness applies to the MapSpecs reported by the implementation *)
+Theorem C01_autogen_completion_ok : forall user eff,
+  construct user = Ok eff -> completion_ok user (map fspec eff) = true.
+Proof. exact construct_completion. Qed.
+Print Assumptions C01_autogen_completion_ok.
+
+(* 7b. conversely, a user-level list that is `completable` (Model/AutoGenSpec.v, declarative: unique outputs, MapSpec
+       outputs = output tuples, user MapSpecs well formed and mutually consistent, the indexed uses of the outputs of
+       one spec-less function compatible with each other) is NEVER refused by the construction, in whatever order the
+       functions are added; and the incremental construction (one validation per Pipeline.add) ends in the same list
+       as one validation of the whole list.  (Before the repairs 348bc4e / 776ea17 this was false: see
+       known_findings.jsonl C01-autogen-*.) *)
+Theorem C01_autogen_never_refuses : forall user,
+  completable user = true -> exists eff, construct user = Ok eff.
+Proof. exact construct_never_refuses. Qed.
+Print Assumptions C01_autogen_never_refuses.
+
+Theorem C01_autogen_incremental_is_oneshot : forall user,
+  completable user = true -> exists eff, construct user = Ok eff /\ effective user = Ok eff.
+Proof. exact construct_effective. Qed.
+Print Assumptions C01_autogen_incremental_is_oneshot.
+
+(* 7c. at run time a function with a generated MapSpec ( ... -> o[axes], no inputs) is run exactly like a function
+       without MapSpec: ONE call on whole arrays; the generated MapSpec only feeds the shape table *)
+Theorem C01_generated_called_once : forall body user st e g st',
+  fspec e = Some g -> ins g = [] ->
+  run_func body user st e = Ok st' ->
+  exists kw outs,
+    func_kwargs e (r_env st) = Ok kw /\ body e kw = Ok outs
+    /\ r_calls st' = r_calls st + 1
+    /\ r_env st' = combine (fouts e) outs ++ r_env st
+    /\ r_out st' = r_out st ++ map (fun x => (fst x, snd x, snd x)) (combine (fouts e) outs).
+Proof. exact generated_called_once. Qed.
+Print Assumptions C01_generated_called_once.
+
+(* 8. end to end: the run of the effective list computed by the model of the construction denotes (theorem 5) *)
+Corollary C01_autogen_map_run_denotes : forall body, body_arity body ->
+  forall userfs eff user inputs d,
+  construct userfs = Ok eff ->
+  request_ok eff inputs = true -> denote_run body eff inputs user = Ok d ->
+  exists st, map_run body eff inputs user = Ok st
+             /\ map (fun x => (fst (fst x), snd (fst x))) (r_out st) = d_out d
+             /\ map (fun x => (fst (fst x), snd x)) (r_out st) = d_out d.
+Proof. intros body Ha userfs eff user inputs d _. now apply map_run_denotes. Qed.
+Print Assumptions C01_autogen_map_run_denotes.
+
+(* 8b. the names `unnamed_k` chosen for axes that no consumer names are fresh: the search of replace_none_in_axes ends
+       (within len(names)+1 candidates) on a name that is not taken, and different k give different names *)
+Theorem C01_fresh_names : forall fuel i names,
+  length names < fuel -> ~ In (unnamed (fresh fuel i names)) names.
+Proof. exact AutoGenFresh.fresh_not_in. Qed.
+Print Assumptions C01_fresh_names.
+
+Theorem C01_unnamed_injective : forall i j, unnamed i = unnamed j -> i = j.
+Proof. exact AutoGenFresh.unnamed_inj. Qed.
+Print Assumptions C01_unnamed_injective.
+
+(* 8c. the generated MapSpec has pairwise distinct axes when, among the indexed uses of the outputs of one spec-less
+       function, an index name stands at one position only (`distinct_axes`, Model/AutoGenNames.v; necessary:
+       a[i, :] with b[:, i] for sibling outputs gives  ... -> a[i, i], b[i, i]) ... *)
+Theorem C01_generated_axes_distinct : forall user eff,
+  construct user = Ok eff -> completable user = true -> distinct_axes user = true ->
+  forall f e g, In (f, e) (combine user eff) -> fspec f = None -> fspec e = Some g -> NoDup (output_indices g).
+Proof. exact AutoGenFresh.generated_axes_distinct. Qed.
+Print Assumptions C01_generated_axes_distinct.
+
+(*     ... hence the effective list is a valid request whenever the user-level list is one as written *)
+Theorem C01_autogen_request_ok : forall user eff inputs,
+  completable user = true -> distinct_axes user = true -> construct user = Ok eff ->
+  request_ok user inputs = true -> request_ok eff inputs = true.
+Proof. exact AutoGenFresh.construct_request_ok. Qed.
+Print Assumptions C01_autogen_request_ok.
+
+(* 8d. USER-LEVEL END TO END (7b + 8c + 5): hypotheses on the user-level list only.  The list is constructed, the
+       effective list is a valid request, and whenever its denotation is defined the run returns and stores it. *)
+Theorem C01_user_level_end_to_end : forall body, body_arity body ->
+  forall user inputs internal,
+  completable user = true -> distinct_axes user = true -> request_ok user inputs = true ->
+  exists eff,
+    construct user = Ok eff /\ request_ok eff inputs = true
+    /\ forall d, denote_run body eff inputs internal = Ok d ->
+       exists st, map_run body eff inputs internal = Ok st
+                  /\ map (fun x => (fst (fst x), snd (fst x))) (r_out st) = d_out d
+                  /\ map (fun x => (fst (fst x), snd x)) (r_out st) = d_out d.
+Proof. exact user_level_end_to_end. Qed.
+Print Assumptions C01_user_level_end_to_end.
+
+(* non-vacuity: tuple-output producer without MapSpec, consumed as a[:, j] and b[i, :] by two functions, handed to
+   Pipeline in the order h1, g, h2: the effective MapSpec of g is  ... -> a[i, j], b[i, j]  and the request is valid *)
+Example C01_example_autogen :
+  completable exa_user = true /\ distinct_axes exa_user = true
+  /\ completable exa_topo = true /\ distinct_axes exa_topo = true /\ request_ok exa_topo exa_inputs = true
+  /\ option_map (map (fun f => option_map print (fspec f))) (match construct exa_user with Ok e => Some e | Err _ => None end)
+     = Some [Some (s "a[:, j] -> r[j]"); Some (s "... -> a[i, j], b[i, j]"); Some (s "b[i, :], x[i] -> q[i]")]
+  /\ match construct exa_user with
+     | Ok eff => request_ok (exa_run_order eff) exa_inputs = true
+                 /\ option_map (fun d => map (fun x => (fst x, val_shape (snd x))) (d_out d))
+                      (match denote_run sym_body (exa_run_order eff) exa_inputs exa_internal with Ok d => Some d | Err _ => None end)
+                    = Some [(s "a", Ok [2; 2]); (s "b", Ok [2; 2]); (s "r", Ok [2]); (s "q", Ok [2])]
+     | Err _ => False
+     end.
+Proof. exact exa_hyps. Qed.
+
+(* Mapped functions with ZERO mapped axes ( x[:], w[:, :] -> y[j, k] ): theorems 4 and 5 cover them as they stand - the
+   hypotheses do not exclude an empty external shape (ext_of mask sh = [], prod [] = 1 call) - shown by an instance *)
+Example C01_example_zero_mapped_axes :
+  wf_decl exz_ms = true /\ nodup_str (map aname (ins exz_ms)) = true /\ nodup_str (output_indices exz_ms) = true
+  /\ 0 < length (fouts exz_f) /\ length [false; false] = length [3; 2]
+  /\ length (ext_of [false; false] [3; 2]) = length (external_indices exz_ms)
+  /\ forallb (fun d => 0 <? d) [3; 2] = true
+  /\ shape exz_ms [(s "x", [2]); (s "w", [1; 2])] exz_internal = Ok ([3; 2], [false; false])
+  /\ prod (ext_of [false; false] [3; 2]) = 1
+  /\ request_ok [exz_f] exz_inputs = true
+  /\ option_map (fun d => map (fun x => (fst x, val_shape (snd x))) (d_out d))
+       (match denote_run sym_body [exz_f] exz_inputs exz_internal with Ok d => Some d | Err _ => None end)
+     = Some [(s "y", Ok [3; 2])]
+  /\ option_map r_calls (match map_run sym_body [exz_f] exz_inputs exz_internal with Ok st => Some st | Err _ => None end)
+     = Some 1.
+Proof. exact exz_hyps. Qed.
+
+(* 9. link to the differential check for the extended case type (explicit requests AND user-level lists) *)
+Theorem C01_model_meets_spec_x : forall c, Run_C01x.spec_ok c (Run_C01x.run c) = true.
+Proof. exact model_meets_spec_x. Qed.
+Print Assumptions C01_model_meets_spec_x.
+
+(* ====================================================================================================
+   STORAGE: the abstract storage of the map loop (`sto`: full index |-> value, `sto_dump`, `sto_array`) is C07's
+   reference masked array, so C07's refinement theorems (FileArray / DictArray models refine the reference) compose
+   with theorem 4.  (Proofs/MapStoreLink.v)
+     geom_of sh mask      the storage geometry (external shape, internal shape, mask) of an output of full shape sh
+     sval_of v            what dump(key, value) receives: the row-major flat list of the returned value
+     cells_of sh st       the reference array (cells Val x / Masked) denoted by the abstract storage st
+     render               how to_array shows a cell (Masked = "--")
+     dump_ops sh mask V   the calls  dump(output_key(i), V i)  of the loop, in loop order
+     out_col .. j i       the value the user function returns for output j at linear index i
+   ==================================================================================================== *)
+
+(* 10. one storage dump of the loop IS one dump of the reference array, and what the abstract storage renders
+       (theorem 2) is the rendering of the reference array *)
+Theorem C01_sto_dump_is_reference_dump : forall sh mask, length mask = length sh ->
+  forall st st' key v,
+  in_bounds (ext_of mask sh) key = true -> val_ok mask (int_of mask sh) v ->
+  sto_dump sh mask key v st = Ok st' ->
+  Store.dumpM str (geom_of sh mask) (cells_of sh st) (StoreSpec.int_key key) (sval_of v) = Ok (cells_of sh st').
+Proof. exact sto_dump_is_dumpM. Qed.
+Print Assumptions C01_sto_dump_is_reference_dump.
+
+Theorem C01_sto_array_is_rendered_reference : forall sh st,
+  sto_array sh st = {| shp := sh; dat := map render (cells_of sh st) |}.
+Proof. exact sto_array_render. Qed.
+Print Assumptions C01_sto_array_is_rendered_reference.
+
+(* reading one element back through the reference's __getitem__ *)
+Theorem C01_sto_read_after_dump : forall sh mask, length mask = length sh ->
+  forall st st' key v p,
+  in_bounds (ext_of mask sh) key = true -> val_ok mask (int_of mask sh) v -> in_bounds sh p = true ->
+  sto_dump sh mask key v st = Ok st' ->
+  exists A' c,
+    Store.dumpM str (geom_of sh mask) (cells_of sh st) (StoreSpec.int_key key) (sval_of v) = Ok A'
+    /\ Store.getM str (geom_of sh mask) A' (StoreSpec.int_key p) = Ok (Store.OArr [] [c])
+    /\ nd_get (sto_array sh st') p = Some (render c)
+    /\ (ext_of mask p = key -> c = Store.Val (elem v (int_of mask p))).
+Proof. exact read_after_dump. Qed.
+Print Assumptions C01_sto_read_after_dump.
+
+(* 11. the whole loop: the dumps of all linear indices, as operations of the reference machine started from the
+       all-masked array, end in the reference array of the final abstract storage, whose rendering is the target *)
+Theorem C01_loop_is_reference : forall sh mask, length mask = length sh ->
+  forall V : nat -> val, (forall i, i < prod (ext_of mask sh) -> val_ok mask (int_of mask sh) (V i)) ->
+  forall miss,
+  exists st,
+    fold_left (fun acc i => do st <- acc; sto_dump sh mask (unravel (ext_of mask sh) i) (V i) st)
+              (seq 0 (prod (ext_of mask sh))) (Ok []) = Ok st
+    /\ Store.final str (Store.stepM str miss (geom_of sh mask)) (Store.absent str (geom_of sh mask)) (dump_ops sh mask V)
+       = cells_of sh st
+    /\ sto_array sh st = {| shp := sh; dat := target sh mask V |}.
+Proof. exact loop_is_reference. Qed.
+Print Assumptions C01_loop_is_reference.
+
+(* 12. composition with C07 (C07_file_refines / C07_dict_refines) and with theorem 4: for a mapped function whose
+       denotation is defined, the FileArray MODEL and the DictArray MODEL, driven by exactly the dumps the loop of
+       run_mapped performs for output j, end in a state whose to_array is the denotation of output j - and that is
+       also what run_mapped returns and stores *)
+Theorem C01_storage_backends_denote : forall body, body_arity body ->
+  forall f ms kw sh mask,
+  wf_decl ms = true -> NoDup (map aname (ins ms)) -> NoDup (output_indices ms) -> 0 < length (fouts f) ->
+  length mask = length sh -> length (ext_of mask sh) = length (external_indices ms) ->
+  forallb (fun d => 0 <? d) sh = true ->
+  forall arrs, denote_mapped body f ms kw sh mask = Ok arrs ->
+  run_mapped body f ms kw sh mask = Ok (arrs, arrs, prod (ext_of mask sh))
+  /\ forall j, j < length (fouts f) ->
+       exists cF cD,
+         snd (Store.stepF str (geom_of sh mask)
+                (Store.final str (Store.stepF str (geom_of sh mask)) [] (dump_ops sh mask (out_col body f ms kw sh mask j)))
+                Store.ToArray) = Store.OArr sh cF
+         /\ snd (Store.stepD str (geom_of sh mask)
+                   (Store.final str (Store.stepD str (geom_of sh mask)) [] (dump_ops sh mask (out_col body f ms kw sh mask j)))
+                   Store.ToArray) = Store.OArr sh cD
+         /\ {| shp := sh; dat := map render cF |} = nth j arrs {| shp := []; dat := [] |}
+         /\ {| shp := sh; dat := map render cD |} = nth j arrs {| shp := []; dat := [] |}.
+Proof. exact mapped_storage_link. Qed.
+Print Assumptions C01_storage_backends_denote.
+
+(* ... where dump_ops (out_col .. j) are exactly the dump calls of the loop: key = output_key, value = the j-th value
+   returned in that iteration *)
+Theorem C01_dump_ops_are_the_loop_dumps : forall body, body_arity body ->
+  forall f ms kw sh mask,
+  wf_decl ms = true -> NoDup (map aname (ins ms)) -> NoDup (output_indices ms) -> 0 < length (fouts f) ->
+  length mask = length sh -> length (ext_of mask sh) = length (external_indices ms) ->
+  forallb (fun d => 0 <? d) sh = true ->
+  forall arrs, denote_mapped body f ms kw sh mask = Ok arrs ->
+  forall i, i < prod (ext_of mask sh) ->
+  exists sel outs key,
+    select_kwargs ms kw (ext_of mask sh) i = Ok sel /\ body f sel = Ok outs /\ length outs = length (fouts f)
+    /\ output_key ms (ext_of mask sh) i = Ok key
+    /\ forall j, dump_op sh mask i (out_col body f ms kw sh mask j i)
+                 = Store.Dump (StoreSpec.int_key key) (sval_of (nth j outs (VS []))).
+Proof. exact dump_op_is_loop_dump. Qed.
+Print Assumptions C01_dump_ops_are_the_loop_dumps.
+
+(* non-vacuity (x[i] -> y[j, i], internal axis first): the three machines run on the 3 dumps of the loop; the
+   rendered to_array of each equals the denoted array *)
+Example C01_example_storage_link :
+  exists a,
+    denote_mapped sym_body ex_f1 ex_ms1 ex_kw1 [2; 3] [false; true] = Ok [a]
+    /\ run_mapped sym_body ex_f1 ex_ms1 ex_kw1 [2; 3] [false; true] = Ok ([a], [a], 3)
+    /\ length ex_ops = 3
+    /\ rendered (snd (Store.stepM str KeyError ex_g
+                        (Store.final str (Store.stepM str KeyError ex_g) (Store.absent str ex_g) ex_ops) Store.ToArray))
+       = Some a
+    /\ rendered (snd (Store.stepF str ex_g (Store.final str (Store.stepF str ex_g) [] ex_ops) Store.ToArray)) = Some a
+    /\ rendered (snd (Store.stepD str ex_g (Store.final str (Store.stepD str ex_g) [] ex_ops) Store.ToArray)) = Some a.
+Proof. exact ex_link. Qed.
